@@ -48,6 +48,8 @@ Theorem C21_operators :
   (forall pp pn, op_correct (op_difference pp pn) (difference_spec pp pn)) /\
   op_correct (op_zip Tick Tick) zip_tick_spec /\
   op_correct (op_zip Static Static) zip_static_spec /\
+  op_correct (op_zip Static Tick) zip_st_spec /\
+  op_correct (op_zip Tick Static) zip_ts_spec /\
   op_correct op_zip_longest (fun _ cur => [vzip_longest (port 0 cur) (port 1 cur)]) /\
   op_correct op_demux2 (fun _ cur => [map vsnd (filter (fun v => vnum (vfst v) =? 0) (port 0 cur));
                                       map vsnd (filter (fun v => vnum (vfst v) =? 1) (port 0 cur))]) /\
